@@ -1,4 +1,7 @@
+#[cfg(not(sylt_verif))]
 use std::collections::HashMap;
+#[cfg(sylt_verif)]
+use sylt_common::verif_hash::HashMap;
 use std::io::Write;
 use sylt_common::error::Error;
 use sylt_common::FileOrLib;
